@@ -37,10 +37,43 @@ TEMPLATES = [
 ]
 
 
+def shadowing_cases():
+    """parameters named like the caller's variables, arguments in every order and of every form (variable,
+    subscript, nested call, pronoun): every argument is evaluated in the CALLER's scope, before any parameter
+    is bound; the callee sees exactly the values passed, the caller's variables are untouched afterwards"""
+    import itertools
+    out = []
+    names = ["X", "Y", "Z"]
+    for k in (2, 3):
+        ps = names[:k]
+        head = f"Show takes {', '.join(ps)}\n" + "".join(f"say {p}\n" for p in ps) + f"put 0 into {ps[0]}\ngive back {ps[-1]}\n\n"
+        ident = "Same takes V\ngive back V\n\n"
+        init = "".join(f"put {i + 1} into {p}\n" for i, p in enumerate(ps)) + "rock Arr with 10, 20, 30\n"
+        tail = "".join(f"say {p}\n" for p in ps)
+        for perm in itertools.product(ps, repeat=k):
+            if list(perm) == ps:
+                continue
+            args = ", ".join(perm)
+            out.append({"src": head + init + f"say Show taking {args}\n" + tail, "meta": "shadowing: variables permuted"})
+            out.append({"src": head + init + f"Show taking {args}\n" + tail, "meta": "shadowing: call statement"})
+        forms = {"sub": lambda v: f"Arr at {v}", "call": lambda v: f"Same taking {v}", "neg": lambda v: f"not {v}"}
+        for fname, form in forms.items():
+            for perm in itertools.permutations(ps):
+                args = ", ".join(form(v) if i else v for i, v in enumerate(perm))
+                out.append({"src": head + ident + init.replace("put 1 into X", "put 0 into X") + f"say Show taking {args}\n" + tail,
+                            "meta": f"shadowing: later arguments {fname}"})
+        # a parameter named like the caller's ARRAY, and a pronoun argument after a named one
+        out.append({"src": f"Pick takes Idx, Arr\ngive back Arr\n\nrock Arr with 7, 8, 9\nput 1 into Idx\nsay Pick taking Idx, Arr at 1\nsay Arr at 1\n", "meta": "shadowing: array"})
+        out.append({"src": head + init + f"say Show taking {ps[1]}, it" + (", it" if k == 3 else "") + "\n" + tail, "meta": "shadowing: pronoun argument"})
+    # recursion handing its own parameters on in another order
+    out.append({"src": "Count takes N, Prev\nsay Prev\nif N is 0\ngive back Prev\n\nput N minus 1 into M\ngive back Count taking M, N\n\nsay Count taking 3, 0\n", "meta": "shadowing: recursion"})
+    return out
+
+
 def run(chk):
     proved = setup(chk, "C05")
     quick = chk.tier == "quick"
-    cases = [{"src": t, "meta": "template"} for t in TEMPLATES]
+    cases = [{"src": t, "meta": "template"} for t in TEMPLATES] + shadowing_cases()
     cases += [{"src": c["src"], "meta": c.get("note")} for c in corpus_cases("exec")]
     recs = execsuite.run(chk, cases, "tmpl", suite_name="EXEC-templates")
     record_exec(chk, recs, sig=lambda r: (r["case"]["src"][:60], r["impl"].get("debug", "")[:60]))
@@ -49,6 +82,7 @@ def run(chk):
     record_exec(chk, recs2)
     chk.rule = ("hand-written scope/call/pronoun templates (recursion, return from nested loops/ifs, call by value for scalars and "
                 "arrays, block locals, argument order with printing callees, pronoun after block/call end, arity and kind errors, "
-                "name shadowing between parameters/locals and outer functions) plus generated programs with functions; compared: "
+                "name shadowing between parameters/locals and outer functions; parameters named like the caller's variables with the "
+                "arguments in every order and form: variable, subscript, nested call, negation, pronoun) plus generated programs with functions; compared: "
                 "stdout bytes + outcome in debug and release")
     conclude(chk, "C05", proved)
